@@ -241,6 +241,22 @@ def special_key_cases():
     return out
 
 
+def big_value_cases():
+    """values with more than 100 / 1000 members of every sized kind (list, tuple, set, frozenset, dict, str, bytes, bytearray,
+    range, dict views, deque) where the schema expects something else — whatever a message does with long values"""
+    import collections
+    out = []
+    for n in (101, 1001):
+        bigs = [list(range(n)), tuple(range(n)), set(range(n)), frozenset(range(n)), {i: i for i in range(n)}, "x" * n, b"y" * n,
+                bytearray(b"z" * n), range(n), {i: 0 for i in range(n)}.keys(), collections.deque(range(n)), {str(i): [i] for i in range(n)}]
+        for b in bigs:
+            for s, wrap in ((schema.int, lambda v: v), (schema.str.len(1), lambda v: v), (schema.list(schema.str).len(2), lambda v: v),
+                            (schema.dict({"k": schema.int}), lambda v: {"k": v}), (schema.list([schema.none, schema.int]), lambda v: [None, v]),
+                            (schema.any(schema.int, schema.none), lambda v: v), (schema.dict({"a": schema.int}), lambda v: v)):
+                out.append(ValCase(s, wrap(b), "big-value"))
+    return out
+
+
 def touchy_cases():
     """(schema, value) cases whose nested validation raises from user code. The real validate may raise (not this
     family's business); whatever errors it RETURNS must still be true and located."""
